@@ -5,7 +5,7 @@
 //
 // One case line = one history on a fresh Directory volume:
 //
-//   hist <op>;<op>;...
+//   hist <op>;<op>;...        (hists …: the same with DriverParameters.Serialize = true)
 //
 // Environment ops (done by the parent, they stand for "what was on disk before" / "time passes"):
 //   seed:<B>:intact|corrupt|trash   plant a copy of body B (intact / corrupt block file, trashed copy)
@@ -106,7 +106,7 @@ func verifC02Cluster(root string, lifetime time.Duration) *arvados.Cluster {
 	cluster.Collections.BlobTrash = true
 	cluster.Collections.BlobTrashLifetime = arvados.Duration(lifetime)
 	cluster.Collections.BlobDeleteConcurrency = 1
-	params, _ := json.Marshal(map[string]interface{}{"Root": root})
+	params, _ := json.Marshal(map[string]interface{}{"Root": root, "Serialize": os.Getenv("VERIF_C02_SERIALIZE") == "1"})
 	cluster.Volumes = map[string]arvados.Volume{
 		"zzzzz-nyw5e-000000000000000": {Replication: 1, Driver: "Directory", DriverParameters: params},
 	}
@@ -819,8 +819,14 @@ func verifC02Run(line string, tmp string, n int) (out string) {
 		// the instrumenter's point list is checked by the model; nothing to run here
 		return "points-ok"
 	}
-	if len(f) != 2 || f[0] != "hist" {
+	if len(f) != 2 || (f[0] != "hist" && f[0] != "hists") {
 		return "bad-op"
+	}
+	// hists: the volume is configured with Serialize: true (children inherit the environment)
+	if f[0] == "hists" {
+		os.Setenv("VERIF_C02_SERIALIZE", "1")
+	} else {
+		os.Setenv("VERIF_C02_SERIALIZE", "0")
 	}
 	h := &verifC02Hist{root: filepath.Join(tmp, fmt.Sprintf("vol%d", n))}
 	if err := os.Mkdir(h.root, 0755); err != nil {
